@@ -238,7 +238,7 @@ theorem spec_repeatable (α : Spec.State) (pre mid : List Op) (s t : String) (p 
          (Spec.outs α (pre ++ .exec s (.sel t p) :: (mid ++ [.exec s (.sel t p)])))[pre.length + 1 + mid.length]? = some o := by
   have hr : (Op.exec s (.sel t p)).keeps s = true := by simp [Op.keeps, Stmt.isSel]
   rw [Spec.outs_append]
-  simp only [Spec.outs, Spec.outs_append, Spec.final]
+  simp only [Spec.outs, Spec.outs_append]
   refine ⟨(Spec.step (Spec.final α pre) (.exec s (.sel t p))).2, ?_, ?_⟩
   · have := @getElem?_mid _ (Spec.outs α pre) (Spec.outs (Spec.step (Spec.final α pre) (.exec s (.sel t p))).1 mid ++
         [(Spec.step (Spec.final (Spec.step (Spec.final α pre) (.exec s (.sel t p))).1 mid) (.exec s (.sel t p))).2])
@@ -286,7 +286,7 @@ theorem spec_commit_congr (α1 α2 : Spec.State) (a : Spec.ATxn) (hc : α1.commi
   rw [hl]
   split
   · exact ⟨rfl, hc, hl, rfl, rfl, rfl, rfl⟩
-  · simp [hc, hl]
+  · simp [hc]
 
 /-- an operation of the erased session changes nothing but that session -/
 theorem erase_own (s : String) (α1 α2 : Spec.State) (h : EqExcept s α1 α2) (op : Op) (hof : op.ofSess s = true)
@@ -535,7 +535,7 @@ theorem find_filter_skip {p q : α → Bool} : ∀ (l : List α), (∀ x ∈ l, 
         | false => rfl
         | true => exact (hq (h x (List.mem_cons_self ..) hpx)).elim
       have hq' : q x = false := by simpa using hq
-      simp [List.filter_cons, hq', List.find?_cons, hp, ih]
+      simp [hq', hp, ih]
 
 theorem any_filter_skip {p q : α → Bool} : ∀ (l : List α), (∀ x ∈ l, p x = true → q x = true) →
     (l.filter q).any p = l.any p
@@ -549,7 +549,7 @@ theorem any_filter_skip {p q : α → Bool} : ∀ (l : List α), (∀ x ∈ l, p
         | false => rfl
         | true => exact (hq (h x (List.mem_cons_self ..) hpx)).elim
       have hq' : q x = false := by simpa using hq
-      simp [List.filter_cons, hq', List.any_cons, hp, ih]
+      simp [hq', List.any_cons, hp, ih]
 
 theorem view_eraseTxn (S : Snapshot) (tid : Nat) (rows : List Row) (h : S.sees tid = false) :
     view D0 S (eraseTxn tid rows) = view D0 S rows := by
